@@ -52,6 +52,11 @@ SPECS = {
     # `r?` on a Result that an expansion above turned into arms: Ok(v) continues with v, Err(e) breaks out with Err(e)
     "<" + RESULT + "<T, E> as std::ops::Try>::branch": ("result", {"Ok": ("cf_continue", ("payload",)), "Err": ("cf_break", ("payload",))}),
 }
+# variant predicates on a value the arms of an earlier expansion (or of a helper that was put in place) built: `is_break()` on
+# the ControlFlow a `handle_line` helper returns, `is_ok()` on an Ok(..) / Err(..) chosen in arms.  They take `&self`.
+PREDICATES = {"std::ops::ControlFlow::is_break": ("cf", "Break"), "std::ops::ControlFlow::is_continue": ("cf", "Continue"),
+              OPTION + "::is_some": ("option", "Some"), OPTION + "::is_none": ("option", "None"),
+              RESULT + "::is_ok": ("result", "Ok"), RESULT + "::is_err": ("result", "Err")}
 SPECS["<" + OPTION + "<T> as std::ops::Try>::branch"] = ("option", {"Some": ("cf_continue", ("payload",)), "None": ("cf_break_none",)})
 CONTROL_FLOW = "std::ops::ControlFlow"
 
@@ -136,8 +141,11 @@ def _pl(l, proj=None, ty="?"):
     return {"l": l, "p": list(proj or []), "ty": ty}
 
 
+_VIDX = {"None": 0, "Some": 1, "Ok": 0, "Err": 1, "Continue": 0, "Break": 1}
+
+
 def _agg(adt, variant, ops):
-    return {"k": "agg", "agg": "adt", "adt": adt, "variant": variant, "fields": ["0"] if ops else [], "ops": ops}
+    return {"k": "agg", "agg": "adt", "adt": adt, "variant": variant, "vidx": _VIDX.get(variant, 0), "fields": ["0"] if ops else [], "ops": ops}
 
 
 def _closure_of(body, defs, op, bodies):
@@ -256,9 +264,92 @@ def _option_residuals(body):
     return n
 
 
+def _predicates_on_built_values(body, log):
+    """`v.is_break()` where v was built as Break(..) / Continue(..) in arms: a switch on v's discriminant yielding the constant."""
+    n = 0
+    for _attempt in range(20):
+        live = _live(body)
+        defs = _defs(body, live)
+        hit = None
+        for bi in sorted(live):
+            blk = body["blocks"][bi]
+            t = blk["term"]
+            if blk["cleanup"] or t["k"] != "call" or t.get("target") is None or len(t.get("args", [])) != 1:
+                continue
+            spec = PREDICATES.get(strip_generics(t.get("callee") or ""))
+            if spec is None:
+                continue
+            q = t["args"][0].get("move") or t["args"][0].get("copy")
+            for _ in range(3):
+                if q is None or q["p"]:
+                    break
+                ds = defs.get(q["l"], [])
+                if len(ds) == 1 and ds[0].get("k") == "ref" and not ds[0]["p"]["p"]:
+                    q = ds[0]["p"]
+                    break
+                if len(ds) == 1 and ds[0].get("k") == "use":
+                    q = ds[0]["a"].get("move") or ds[0]["a"].get("copy")
+                    continue
+                q = None
+            if q is None or q["p"]:
+                continue
+            adt = {"cf": CONTROL_FLOW, "option": OPTION, "result": RESULT}[spec[0]]
+            ds = defs.get(q["l"], [])
+            if len(ds) < 2 or not all(d.get("k") == "agg" and d.get("agg") == "adt" and d.get("adt") == adt for d in ds):
+                continue
+            hit = (bi, q["l"], adt, spec[1])
+            break
+        if hit is None:
+            break
+        bi, vl, adt, want = hit
+        blocks = body["blocks"]
+        blk = blocks[bi]
+        t = blk["term"]
+        line = t.get("line")
+        variants = _STD_VARIANTS[adt]
+        arms = []
+        for name, idx in sorted(variants.items(), key=lambda kv: kv[1]):
+            nb = len(blocks)
+            v = int(name == want)
+            blocks.append({"stmts": [{"lhs": t["dest"], "rv": {"k": "use", "a": {"const": {"ty": "bool", "disp": str(bool(v)).lower(), "bits": str(v), "size": 1, "int": v}}}, "line": line, "exp": False}],
+                           "term": {"k": "goto", "target": t["target"], "line": line, "exp": False}, "cleanup": False, "spliced": blk.get("spliced")})
+            arms.append([idx, nb])
+        un = len(blocks)
+        blocks.append({"stmts": [], "term": {"k": "unreachable", "line": line, "exp": False}, "cleanup": False})
+        d = _new_local(body, "isize")
+        blk["stmts"].append({"lhs": _pl(d, ty="isize"), "rv": {"k": "discr", "p": _pl(vl, ty=adt + "<?>")}, "line": line, "exp": False})
+        blk["term"] = {"k": "switch", "discr": {"move": _pl(d, ty="isize")}, "discr_ty": "isize", "arms": arms, "otherwise": un, "line": line, "exp": False, "expanded_from": strip_generics(t.get("callee") or "")}
+        log.append({"function": body["key"], "combinator": strip_generics(t.get("callee") or "").split("::")[-1] + " on a value built in arms", "closure": None})
+        n += 1
+    return n
+
+
+def _result_residuals(body):
+    """In code that was put in place: `Err(e)?` ends in `Result::from_residual(Err(e))`, which is an `Err` (of the converted
+    error): the helper's `?` leaves through its Err exit."""
+    n = 0
+    for blk in body["blocks"]:
+        t = blk["term"]
+        if blk["cleanup"] or not blk.get("spliced") or t["k"] != "call" or t.get("target") is None or len(t.get("args", [])) != 1:
+            continue
+        if strip_generics(t.get("callee") or "").startswith("<" + RESULT + "<T, F> as std::ops::FromResidual<" + RESULT):
+            q = t["args"][0].get("move") or t["args"][0].get("copy")
+            if q is None:
+                continue
+            e = _new_local(body)
+            blk["stmts"].append({"lhs": _pl(e), "rv": {"k": "use", "a": {"move": dict(q, p=list(q["p"]) + [{"d": "Err", "v": 1}, {"f": 0, "n": "0", "ty": "?"}])}}, "line": t.get("line"), "exp": False})
+            blk["stmts"].append({"lhs": t["dest"], "rv": _agg(RESULT, "Err", [{"move": _pl(e)}]), "line": t.get("line"), "exp": False})
+            blk["term"] = {"k": "goto", "target": t["target"], "line": t.get("line"), "exp": False, "was": "from_residual"}
+            n += 1
+    return n
+
+
 def expand_body(body, bodies, known, log):
     n_done = _direct_closure_calls(body, bodies, known, log)
     _option_residuals(body)
+    if _result_residuals(body):
+        log.append({"function": body["key"], "combinator": "? inside a helper put in place", "closure": None})
+    _predicates_on_built_values(body, log)
     for _attempt in range(40):
         live = _live(body)
         defs = _defs(body, live)
